@@ -1,6 +1,7 @@
 //! Per-processor state for worker threads.
 
 use std::collections::VecDeque;
+use std::mem;
 use std::sync::Mutex;
 use std::sync::atomic::{AtomicBool, AtomicU64, Ordering};
 
@@ -8,7 +9,7 @@ use event_listener::Event;
 use events_once::EventLake;
 use plurality::MultiPool;
 
-use crate::ErasedTaskHandle;
+use crate::{ErasedTaskHandle, NEVER_POISONED};
 
 /// Everything a processor's worker threads share: the work they draw from, the storage that
 /// work lives in, and the signals that tell them to wake up or stop.
@@ -74,6 +75,17 @@ impl ProcessorState {
         crate::verif::point("sig.notify", 0);
 
         self.wake_event.notify(usize::MAX);
+    }
+
+    /// Drops every task that is still queued, completing their join handles as "abandoned".
+    pub(crate) fn abandon_queued_tasks(&self) {
+        // The tasks are taken out under the queue locks but dropped only after the locks have
+        // been released because dropping a task executes the destructor of a caller's closure.
+        let urgent = mem::take(&mut *self.urgent_queue.lock().expect(NEVER_POISONED));
+        let regular = mem::take(&mut *self.regular_queue.lock().expect(NEVER_POISONED));
+
+        drop(urgent);
+        drop(regular);
     }
 
     pub(crate) fn record_task_spawned(&self) {
